@@ -409,6 +409,9 @@ def main():
     if tier == "thorough" and proof_ok and not a.replay and cfgp.get("coqchk", True):
         mod = "Props." + os.path.basename(cfgp["props_file"])[:-2]
         with Lock("coq"):
+            # make (normally a no-op) and coqchk under ONE lock acquisition, so that a
+            # concurrent check cannot regenerate coq/gen in between
+            sh(["make", "-j16"] + cfgp["coq_targets"], cwd=COQ, timeout=3000)
             rc, out = sh(["coqchk", "-silent", "-o"] + QFLAGS[:-2] + [mod], cwd=COQ, timeout=3000)
         ev["coverage"]["coqchk"] = {"rc": rc, "tail": out[-1500:]}
         if rc != 0:
